@@ -70,9 +70,10 @@ func doAclCheck(method string, path string, token *jwt.Token, core *security.Ser
 	}
 
 	// get the method
-	action := "read"
-	if method == "DELETE" || method == "POST" {
-		action = "write"
+	// every method that can change state needs write; only GET and HEAD are reads
+	action := "write"
+	if method == http.MethodGet || method == http.MethodHead {
+		action = "read"
 	}
 
 	for _, ac := range acl {
